@@ -88,6 +88,16 @@ def tag(t):
 NULL = b"\x00\x0f"
 
 
+def enc_int(n):
+    a = abs(n)
+    return i64(n) if a > 0x7FFFFFFF else i32(n) if a > 0x7FFF else i16(n) if a > 0x7F else i8(n)
+
+
+def enc_bytes(b):
+    """the documented encoding of a bytes value, built here (independent of the encoder under test)"""
+    return tag(14) + enc_int(len(b)) + b
+
+
 def handshake_corpus(R):
     """valid encodings of the three handshake messages + the keyword each needs"""
     K = R.K
@@ -119,11 +129,11 @@ def nested_serverhello(R, depth, signer=None):
     key = signer or K.EllipticCurvePrivateKey.new()
     pub = key.getPublicKey().getBytes()
     tid = R.shello.type_id
-    inner = base.real_encode(R, K.EllipticCurvePrivateKey.new().getPublicKey().getBytes())
+    inner = enc_bytes(K.EllipticCurvePrivateKey.new().getPublicKey().getBytes())
     for _ in range(depth):
-        payload = inner + base.real_encode(R, b"salt") + base.real_encode(R, 7)
+        payload = inner + enc_bytes(b"salt") + enc_int(7)
         sig = key.sign(payload)
-        inner = tag(tid) + base.real_encode(R, pub) + base.real_encode(R, payload) + base.real_encode(R, sig)
+        inner = tag(tid) + enc_bytes(pub) + enc_bytes(payload) + enc_bytes(sig)
     return inner
 
 
@@ -226,7 +236,7 @@ def crafted(R):
     # handshake specifics
     ch, sh = tag(R.hello.type_id), tag(R.shello.type_id)
     key = R.K.EllipticCurvePrivateKey.new().getPublicKey().getBytes()
-    kenc = base.real_encode(R, key)
+    kenc = enc_bytes(key)
     pad = R.pad_target
     body = kenc + i8(1)
     for kw in ["k=nokw", "k=none"]:
@@ -253,23 +263,23 @@ def signed_cases(R):
     K = R.K
     out = []
     key = K.EllipticCurvePrivateKey.new()
-    pub = base.real_encode(R, key.getPublicKey().getBytes())
+    pub = enc_bytes(key.getPublicKey().getBytes())
     sh = tag(R.shello.type_id)
-    inner_key = base.real_encode(R, K.EllipticCurvePrivateKey.new().getPublicKey().getBytes())
+    inner_key = enc_bytes(K.EllipticCurvePrivateKey.new().getPublicKey().getBytes())
     payloads = {
-        "ok": inner_key + base.real_encode(R, b"salt") + i32(77777),
+        "ok": inner_key + enc_bytes(b"salt") + i32(77777),
         "empty": b"",
         "short": inner_key,
-        "short2": inner_key + base.real_encode(R, b"salt"),
+        "short2": inner_key + enc_bytes(b"salt"),
         "key-notbytes": i8(1) + NULL + NULL,
-        "key-garbage": base.real_encode(R, b"\x30\x00") + NULL + NULL,
+        "key-garbage": enc_bytes(b"\x30\x00") + NULL + NULL,
         "anything": inner_key + tag(16) + i8(2) + NULL + i8(4) + tag(17) + i8(0),
         "trailing": inner_key + NULL + NULL + b"trailing bytes are ignored",
         "unknown-id": inner_key + tag(999) + NULL,
     }
     for lbl, p in payloads.items():
         sig = key.sign(p)
-        msg = sh + pub + base.real_encode(R, p) + base.real_encode(R, sig)
+        msg = sh + pub + enc_bytes(p) + enc_bytes(sig)
         for kw in ["k=none", "k=nokw", "k=" + key.getPublicKey().getBytes().hex()]:
             out.append(("sh-signed-" + lbl, msg, kw))
         out.append(("sh-signed-trunc-" + lbl, msg[:-1], "k=none"))
